@@ -158,6 +158,8 @@ class Body:
 
     def natural_loops(self):
         """list of (header, set(body blocks)) from back edges t->h with h dom t."""
+        if getattr(self, '_nloops', None) is not None:
+            return self._nloops
         loops = {}
         reach = self.reachable()
         for t in reach:
@@ -172,7 +174,8 @@ class Body:
                         body.add(x)
                         st.extend(self.pred[x])
                     loops.setdefault(h, set()).update(body)
-        return sorted(loops.items())
+        self._nloops = sorted(loops.items())
+        return self._nloops
 
     def control_deps(self):
         """cdep[b] = set of (switch_block, succ_taken) such that b is control dependent on that edge.
